@@ -300,14 +300,56 @@ fn build_batch(cx: &mut Case) -> Batch {
     Batch { n_threads, jobs: Arc::new(jobs), assignment, reverse, shared_redeem: shared_redeem.len(), shared_commit: shared_commit.len(), fresh_process }
 }
 
+/// `comp (comp (injr unit) jet_verify) unit`: the smallest program that calls a C jet.
+fn probe_program() -> Result<Arc<RedeemNode>, String> {
+    let nodes = vec![Ir::Unit, Ir::InjR(0), Ir::Jet(JetRef::Core(Core::Verify)), Ir::Comp(1, 2), Ir::Unit, Ir::Comp(3, 4)];
+    let prog = Prog { nodes, root: 5, family: Family::Core };
+    build_redeem(&prog, true, &std::collections::HashMap::new()).map_err(|e| harness_error(format!("probe program: {:?}", e)))
+}
+
+/// What every thread does first, all at the same moment: take fresh variable names in an own
+/// context and call a C jet.  In a process that has not used the library yet this is where
+/// first-use initialisation (name counter, thread-local type tables, the C layout check of the
+/// jet call) meets contention.  The digest does not depend on the names themselves, only on
+/// the pattern of their first occurrences (0,1,2,.. exactly when they are unique).
+fn probe_digest(probe: &RedeemNode) -> u64 {
+    let mut h = Fnv::new();
+    // the jet call first: it is the step whose first use matters most, and the threads are
+    // closest together right after the rendezvous
+    match BitMachine::for_program(probe) {
+        Err(e) => h.write(format!("refused {}", e).as_bytes()),
+        Ok(mut mac) => match mac.exec(probe, &CoreEnv::new()) {
+            Ok(v) => h.write(format!("ok {}", v).as_bytes()),
+            Err(e) => h.write(format!("err {}", e).as_bytes()),
+        },
+    }
+    types::Context::with_context(|ctx| {
+        use simplicity::node::CoreConstructible;
+        let mut seen: std::collections::HashMap<String, usize> = std::collections::HashMap::new();
+        for _ in 0..400 {
+            let node = Arc::<simplicity::ConstructNode>::iden(&ctx);
+            let name = format!("{}", node.arrow().source);
+            let next = seen.len();
+            h.write_u64(*seen.entry(name).or_insert(next) as u64);
+        }
+    });
+    h.finish()
+}
+
 fn run_concurrent(b: &Batch) -> Result<Vec<u64>, String> {
     let (n_threads, n_jobs) = (b.n_threads, b.jobs.len());
     let (jobs, assignment, reverse) = (b.jobs.clone(), b.assignment.clone(), b.reverse.clone());
     let barrier = Arc::new(Barrier::new(n_threads));
+    let probe = probe_program()?;
+    // a spin rendezvous behind the barrier: a condition-variable barrier wakes its threads one
+    // after the other, tens of microseconds apart
+    let arrived = Arc::new(std::sync::atomic::AtomicUsize::new(0));
     let mut handles = vec![];
     for t in 0..n_threads {
         let jobs = jobs.clone();
         let barrier = barrier.clone();
+        let probe = probe.clone();
+        let arrived = arrived.clone();
         let mut mine: Vec<usize> = (0..n_jobs).filter(|j| assignment[*j] == t).collect();
         if reverse[t] {
             mine.reverse();
@@ -317,20 +359,36 @@ fn run_concurrent(b: &Batch) -> Result<Vec<u64>, String> {
                 .stack_size(64 << 20)
                 .spawn(move || {
                     barrier.wait();
-                    mine.into_iter().map(|j| (j, run_job(&jobs[j]))).collect::<Vec<(usize, u64)>>()
+                    arrived.fetch_add(1, std::sync::atomic::Ordering::SeqCst);
+                    let mut spins = 0u64;
+                    while arrived.load(std::sync::atomic::Ordering::SeqCst) < n_threads && spins < 50_000_000 {
+                        std::hint::spin_loop();
+                        spins += 1;
+                    }
+                    let p = probe_digest(&probe);
+                    (p, mine.into_iter().map(|j| (j, run_job(&jobs[j]))).collect::<Vec<(usize, u64)>>())
                 })
                 .map_err(|e| harness_error(format!("cannot spawn thread: {}", e)))?,
         );
     }
     let mut concurrent = vec![0u64; n_jobs];
+    let mut probes = vec![];
     for (t, h) in handles.into_iter().enumerate() {
         match h.join() {
-            Ok(results) => {
+            Ok((p, results)) => {
+                probes.push(p);
                 for (j, d) in results {
                     concurrent[j] = d;
                 }
             }
             Err(_) => return Err(format!("thread {} of {} panicked while running its jobs concurrently (the same jobs ran sequentially without panic)", t, n_threads)),
+        }
+    }
+    // the same probe on its own (after the threads have finished)
+    let alone = probe_digest(&probe);
+    for (t, p) in probes.iter().enumerate() {
+        if *p != alone {
+            return Err(format!("thread {} of {}: taking 400 fresh variable names in an own context and calling jet_verify right after the common start gives another result than the same steps run alone (names not unique within the context, or the jet call failed)", t, n_threads));
         }
     }
     Ok(concurrent)
